@@ -177,7 +177,29 @@ def reference(faults, vals, list_len, coe):
 DRIVERS = ["run", "run_incremental", "run_all"]
 
 
-def run_world(faults, vals, list_len, coe, store_skips, observer, obs_target, lazy_fault=None, driver="run", rotate=0):
+class FakeSignal(object):
+    """signal for insights.core.plugins during one evaluation: records whether the alarm is armed.  Contract: SIGALRM is delivered
+    `n` seconds after alarm(n) into whatever runs then, unless alarm(0) or a new alarm() came first - so an alarm that is still armed
+    while another component runs (or after the evaluation) can fail that component"""
+    SIGALRM = 14
+
+    def __init__(self):
+        self.armed = False
+        self.handler = None
+
+    def signal(self, num, handler):
+        self.handler = handler
+
+    def alarm(self, n):
+        self.armed = bool(n)
+        return 0
+
+    def __getattr__(self, name):
+        import signal as _sig
+        return getattr(_sig, name)
+
+
+def run_world(faults, vals, list_len, coe, store_skips, observer, obs_target, lazy_fault=None, driver="run", rotate=0, host=False):
     chosen = {}
 
     def fault_of(n, i):
@@ -189,6 +211,18 @@ def run_world(faults, vals, list_len, coe, store_skips, observer, obs_target, la
     w = World(fault_of, vals, list_len, coe)
     broker = dr.Broker()
     broker.store_skips = store_skips
+    w.alarm_left = []
+    real_signal = plugins.signal
+    if host:
+        # collection on a live host: datasources run under an alarm
+        from insights.core.context import HostContext
+        broker[HostContext] = HostContext()
+        fake = plugins.signal = FakeSignal()
+
+        def watch(comp, b, _w=w):
+            if fake.armed:
+                _w.alarm_left.append(_w.names.get(comp, "?"))
+        broker.add_observer(watch)
     if observer != "none":
         def bad_observer(comp, b, _w=w):
             if _w.names.get(comp) == obs_target:
@@ -208,6 +242,8 @@ def run_world(faults, vals, list_len, coe, store_skips, observer, obs_target, la
             dr.run_all(comps, broker=broker)
     except Exception as ex:  # noqa
         escaped = ex
+    finally:
+        plugins.signal = real_signal
     return w, broker, escaped, chosen
 
 
@@ -216,6 +252,8 @@ def accounting(w, broker, escaped, store_skips):
     bad = []
     if escaped is not None:
         bad.append("exception escaped dr.run: %r" % (escaped,))
+    if getattr(w, "alarm_left", None):
+        bad.append("the datasource alarm was still armed after %s finished: a timeout would be delivered into another component" % sorted(set(w.alarm_left)))
     world = set(w.names)
     rps = {w.rp}
     recorded = {}
@@ -236,7 +274,7 @@ def accounting(w, broker, escaped, store_skips):
                     bad.append("unexpected exception %r recorded under %s" % (ex, w.names.get(key, key)))
                 elif not (w.names.get(key) == origin or key in rps):
                     bad.append("%s raised by %s recorded under %s" % (type(ex).__name__, origin, w.names.get(key, repr(key))))
-                if not broker.tracebacks.get(ex):
+                if not any(k_ is ex and t_ for k_, t_ in list(broker.tracebacks.items())):
                     bad.append("no traceback stored for %s raised by %s" % (type(ex).__name__, origin))
     for origin, ex in w.raised:
         if type(ex) is SkipComponent:
@@ -260,13 +298,14 @@ def make_o1(max_list, full_cross=True):
             for i in range(max(1, list_len)):
                 vals["e%d" % i] = en.fresh_int("e%d" % i)
             driver = DRIVERS[en.choice("driver", len(DRIVERS))]
+            host = en.flag("host") if observer == "none" else False
             if not full_cross and driver != "run" and observer != "none":
                 raise core.Abort()       # quick tier: the other drivers are explored without a failing observer
             rotate = en.choice("rotate", 7) if driver != "run" else 0
             w, broker, escaped, chosen = run_world(None, vals, list_len, coe, store_skips, observer, obs_target,
-                                                   lazy_fault=lambda n, i: FAULTS[en.choice("fault_%s_%s" % (n, i), len(FAULTS))], driver=driver, rotate=rotate)
+                                                   lazy_fault=lambda n, i: FAULTS[en.choice("fault_%s_%s" % (n, i), len(FAULTS))], driver=driver, rotate=rotate, host=host)
             case = lambda mv: {"faults": [[n, i, f] for (n, i), f in sorted(chosen.items(), key=repr)], "list_len": list_len,  # noqa
-                               "coe": coe, "store_skips": store_skips, "observer": observer, "obs_target": obs_target, "driver": driver, "rotate": rotate,
+                               "coe": coe, "store_skips": store_skips, "observer": observer, "obs_target": obs_target, "driver": driver, "rotate": rotate, "host": host,
                                "vals": dict((k_, mv.int(v_)) for k_, v_ in vals.items())}
             en.note_sample(case)
             bad = accounting(w, broker, escaped, store_skips)
@@ -301,7 +340,7 @@ def obligations(tier):
                        bounds={"faults per body/element": FAULTS, "parser elements": "single output or list of <= %d" % ml,
                                "continue_on_error": "both", "store_skips": "both", "driver": DRIVERS if thorough else "dr.run with every observer; run_incremental / run_all without a failing observer",
                                "failing observer": "%s on any one component" % OBSERVERS, "values": "unconstrained symbolic ints"},
-                       stubs=["timeouts are injected as the TimeoutException the SIGALRM handler would raise (no HostContext, no real alarm)"],
+                       stubs=["timeouts are injected as the TimeoutException the SIGALRM handler would raise", "with a HostContext in the broker (flag) the signal module of insights.core.plugins records alarm()/signal() instead of arming a real timer: no alarm may stay armed once its datasource has finished"],
                        outside=["real signal delivery", "BlacklistedSpec handling", "graphs other than the 7-component pipeline (C01/C04 vary the shape)"],
                        encoded=enc, budget_s=900 if thorough else 120, replay="faults", check_sample=True)]
 
@@ -312,7 +351,7 @@ def _native(case):
     vals = {"z": 7, "e0": 11, "e1": 13, "e2": 17}
     vals.update(case.get("vals") or {})       # the input values of the counterexample (0, negative ... matter to truthiness slips)
     w, broker, escaped, _ = run_world(faults, vals, case["list_len"], case["coe"], case["store_skips"], case["observer"], case["obs_target"],
-                                      driver=case.get("driver", "run"), rotate=case.get("rotate", 0))
+                                      driver=case.get("driver", "run"), rotate=case.get("rotate", 0), host=case.get("host", False))
     bad = accounting(w, broker, escaped, case["store_skips"])
     ref = reference(faults, vals, case["list_len"], case["coe"])
     for name, comp in {"impl": w.impl, "rp": w.rp, "P": w.P, "C": w.C, "R": w.R, "Z": w.Z, "P2": w.P2}.items():
